@@ -45,6 +45,8 @@ def image (u : Nat) (sp : UInt8) (id : Nat) (pfx : Bytes) (r : List KV) : Out :=
   match checkOpts u with
   | some i => .invalid i
   | none =>
+    if keyBufOverflow pfx then .fault
+    else
     match drain u pfx (r.map fun e => (e.1.drop (storageKey sp id pfx).length, e.2)) with
     | none => .fault
     | some l => .ok l
@@ -66,6 +68,9 @@ theorem find_spec (base : SeekRange → List KV) (f : SpecMap)
   | some i => rfl
   | none =>
     simp only
+    by_cases ho : keyBufOverflow pfx = true
+    · simp only [ho, if_true]
+    simp only [ho, Bool.false_eq_true, if_false]
     rw [layersSeekAsync_eq]
     have hs := layersSeek_spec base f hb (L :: Ls) hw (findRange sp id pfx (int64Bits opts))
       (by simp [findRange, storageKey]) rfl
@@ -87,6 +92,9 @@ theorem findLive_spec (L : Layer) (ps : Store.Store)
   | some i => rfl
   | none =>
     simp only
+    by_cases ho : keyBufOverflow pfx = true
+    · simp only [ho, if_true]
+    simp only [ho, Bool.false_eq_true, if_false]
     rw [Store.C09.seek_observed]
     simp only [Store.specObs, Store.cutKey, findRange, beq_self_eq_true, if_true]
     rfl
@@ -157,14 +165,15 @@ Deserialize, Find over the range `r` never faults and yields exactly one item pe
 the order of `r`, showing the contract's key (or its remainder after the prefix) and the value. -/
 theorem image_plain (u : Nat) (sp : UInt8) (id : Nat) (pfx : Bytes) (r : List KV)
     (hv : checkOpts u = none) (hd : has u FindOpts.findDeserialize = false)
-    (hpre : ∀ e ∈ r, storageKey sp id pfx <+: e.1) :
+    (hlen : pfx.length ≤ 64) (hpre : ∀ e ∈ r, storageKey sp id pfx <+: e.1) :
     image u sp id pfx r = .ok (r.map fun e =>
       let key := if has u FindOpts.findRemovePrefix then (e.1.drop 5).drop pfx.length else e.1.drop 5
       if has u FindOpts.findKeysOnly then Item.byteArray key
       else if has u FindOpts.findValuesOnly then Item.byteArray e.2
       else Item.struct [.byteArray key, .byteArray e.2]) := by
   unfold image drain
-  simp only [hv]
+  have ho : keyBufOverflow pfx = false := by simp [keyBufOverflow]; omega
+  simp only [hv, ho, Bool.false_eq_true, if_false]
   have hfun : (fun kv : KV => iterValue u pfx kv.1 kv.2) = fun kv => some
       (let key := if has u FindOpts.findRemovePrefix then kv.1 else pfx ++ kv.1
        if has u FindOpts.findKeysOnly then Item.byteArray key
@@ -337,7 +346,7 @@ example : (((exS.seek (findRange 0x70 5 [1] 0)).map fun e => e.1.drop (findRange
 -- F5: the forward default scan of the two pairs under prefix 01
 example : image 0 0x70 5 [1] [([0x70,5,0,0,0,1], [7]), ([0x70,5,0,0,0,1,3], [])] =
     .ok [.struct [.byteArray [1], .byteArray [7]], .struct [.byteArray [1,3], .byteArray []]] := by
-  rw [image_plain 0 0x70 5 [1] _ (by decide) (by decide) (by
+  rw [image_plain 0 0x70 5 [1] _ (by decide) (by decide) (by decide) (by
     intro e he; simp at he; rcases he with rfl | rfl <;> decide)]
   rfl
 
